@@ -916,6 +916,16 @@ def c09(run):
                 f = r.split(' ')
                 if f[2] == 'crash' or len(f[2]) <= 1:
                     run.fail({'program': src, 'answer': r[:200]}, 'runtime error message cannot be rendered')
+    # the same programs saved with CR LF line ends (poetic strings then end in a carriage return, which is text)
+    cr = [t.replace('\n', '\r\n') for t, k in cases[:run.n(400, 8000)]]
+    crm, cri = run.tie([run_req(t, 'a line\r\nanother\r\n') for t in cr], proj=proj_run, functional=True, desc=lambda i: {'program': cr[i], 'section': 'CR LF source'})
+    for t, r in zip(cr, cri):
+        if r is None:
+            continue
+        c = run_parts(r)[0]
+        run.case(('crlf', t), True, kind='crlf-source', outcome=c)
+        if c in ('crash', 'hang'):
+            run.fail({'program': t, 'answer': r[:200]}, 'a program saved with CR LF line ends %s' % ('does not terminate' if c == 'hang' else 'crashes the interpreter'))
     # TREE level: the property says "any parseable program", the theorem says every syntax tree: trees no source text parses
     # to (one-word / zero-word proper names, NaN, negative and infinite literals, inc by 0 or a negative amount) are run on
     # both sides from the tree itself
